@@ -150,9 +150,10 @@ def run(ctx):
         phase_bits = j % 8
         # lead-in random bits (as FSK, no gap) then preamble + data; a sub-byte shift via a partial first byte
         script = "S0.2,B%s,S1.5" % hx(lead + b"\xab" * 16 + data)
-        # one run in four with a demanding power squelch (open 0.85, close 0.4..0.7: carrier loss is declared early): the last
+        # one run in four with a demanding power squelch (open 0.60, close 0.35..0.55: carrier loss is declared early; thresholds
+        # above about 0.8 make even a clean signal unreliable, which is not a framing matter): the last
         # received bytes, still in the squelch's 32-symbol delay line when the carrier stops, must not be lost
-        extra = " sqopen=0.85 sqclose=%.2f" % (0.4 + rng.below(31) / 100.0) if j % 4 == 2 else ""
+        extra = " sqopen=0.60 sqclose=%.2f" % (0.35 + rng.below(21) / 100.0) if j % 4 == 2 else ""
         rx_lines.append(tx.line(script=script, extra=extra.strip())); rx_meta.append((tx, data, lead))
     res = rxlib.run_rx(rx_lines)
     ctx.coverage["reuse_after_reset_same_bursts"] = rxlib.reset_reuse(ctx, rng.fork("reset"), 2 if quick else 20, lambda t: t.startswith("LB"), True, "bursts")
